@@ -131,19 +131,20 @@ const (
 )
 
 type thread struct {
-	id       int
-	name     string
-	role     int
-	gate     chan cmd
-	state    int
-	pend     pending
-	doExec   []func() // per-case real operations of the pending select (partner execution)
-	hash     uint64
-	nspawn   int
-	opSeq    int32
-	commHeld int
-	panicV   interface{}
-	panicS   string
+	id        int
+	name      string
+	role      int
+	gate      chan cmd
+	state     int
+	pend      pending
+	doExec    []func() // per-case real operations of the pending select (partner execution)
+	hash      uint64
+	nspawn    int
+	opSeq     int32
+	commHeld  int
+	pendEpoch int32
+	panicV    interface{}
+	panicS    string
 }
 
 // ThreadInfo describes a thread at the end of an execution.
@@ -207,14 +208,16 @@ type Exec struct {
 	cacheCut int // index in points from which children must not be generated (-1: none)
 	cacheFn  func(e *Exec, idx int) bool
 
-	obs      []string
-	fails    []Failure
-	quiesceC chan int
-	wg       sync.WaitGroup
-	aborting bool
-	stepLim  bool
-	traceOn  bool
-	trace    []string
+	obs         []string
+	fails       []Failure
+	quiesceC    chan int
+	wg          sync.WaitGroup
+	aborting    bool
+	checking    bool
+	checkThread *thread
+	stepLim     bool
+	traceOn     bool
+	trace       []string
 
 	// partial-order reduction (sleep sets), see por.go
 	por            bool
@@ -222,6 +225,9 @@ type Exec struct {
 	sleepInit      []transID
 	pinfo          []pointInfo
 	sleepBlk       bool
+	stepLog        []stepRec
+	epochs         int32
+	epochStart     []int32
 	noAtomicPoints bool
 
 	// earlyStop: the state cache recognised the current state; the rest of this execution (and its
@@ -247,6 +253,12 @@ const epoch = int64(1_600_000_000) * int64(time.Second)
 //go:norace
 func self() *thread {
 	e := cur
+	if e != nil && e.running == nil && e.checking {
+		if e.checkThread == nil {
+			e.checkThread = &thread{id: -1, name: "check"}
+		}
+		return e.checkThread
+	}
 	if e == nil || e.running == nil {
 		engineFail("hooked operation outside an execution")
 	}
@@ -448,6 +460,14 @@ func (e *Exec) pick(n, k int, kind uint8) int { return e.pickS(n, k, kind, nil, 
 //
 //go:norace
 func (e *Exec) pickS(n, k int, kind uint8, ids []transID, asleep []bool) int {
+	return e.pickF(n, k, kind, ids, asleep, -1)
+}
+
+// pickF is pickS with an optional forced choice (local-first rule): the point is recorded (so that
+// replay stays aligned) but offers no alternatives.
+//
+//go:norace
+func (e *Exec) pickF(n, k int, kind uint8, ids []transID, asleep []bool, forced int) int {
 	if n <= 1 {
 		return 0
 	}
@@ -459,7 +479,9 @@ func (e *Exec) pickS(n, k int, kind uint8, ids []transID, asleep []bool) int {
 			engineFail("replay divergence at point %d: choice %d of %d options", idx, c, n)
 		}
 	} else {
-		if asleep != nil {
+		if forced >= 0 {
+			c = int32(forced)
+		} else if asleep != nil {
 			for int(c) < n-1 && asleep[c] {
 				c++
 			}
@@ -477,6 +499,7 @@ func (e *Exec) pickS(n, k int, kind uint8, ids []transID, asleep []bool) int {
 		if idx >= len(e.prefix) {
 			pi.opts, pi.asleep = ids, asleep
 			pi.sleepAt = append([]transID(nil), e.sleep...)
+			pi.forced = forced >= 0
 		}
 		e.pinfo = append(e.pinfo, pi)
 		if idx == len(e.prefix)-1 {
@@ -516,6 +539,7 @@ func (e *Exec) schedule(t *thread) int {
 		}
 		var ids []transID
 		var asleep []bool
+		forced := -1
 		if e.por {
 			var any bool
 			ids, asleep, any = e.awakeOf(trs)
@@ -525,14 +549,38 @@ func (e *Exec) schedule(t *thread) int {
 				e.earlyStop = true
 				return e.quiesce(t)
 			}
+			// Local-first rule: a transition with an empty footprint (thread start, resume after a
+			// rendezvous, wake-up from Sleep, a yield without object, Lock of a commutative mutex) is
+			// independent of every transition any other thread can ever take, so {t} is a persistent
+			// set: exploring only t from this state loses no Mazurkiewicz trace.
+			if len(trs) > 1 {
+				for i := range trs {
+					if trs[i].partner == nil && localOp(&trs[i].t.pend) {
+						forced = i
+						break
+					}
+				}
+				if forced >= 0 && asleep[forced] && len(e.points) >= len(e.prefix) {
+					e.sleepBlk = true
+					e.earlyStop = true
+					return e.quiesce(t)
+				}
+			}
 		}
-		c := e.pickS(len(trs), k, ptSched, ids, asleep)
+		c := e.pickF(len(trs), k, ptSched, ids, asleep, forced)
 		if e.earlyStop {
 			return e.quiesce(t)
 		}
 		tr := trs[c]
-		if e.por && len(e.sleep) > 0 {
-			e.sleep = e.sleepAfter(e.sleep, ids[c])
+		if e.por {
+			if len(e.sleep) > 0 {
+				e.sleep = e.sleepAfter(e.sleep, ids[c])
+			}
+			pt := -1
+			if len(trs) > 1 {
+				pt = len(e.points) - 1
+			}
+			e.logStep(tr, pt)
 		}
 		if e.traceOn {
 			e.traceStep(tr, c, len(trs))
@@ -542,6 +590,7 @@ func (e *Exec) schedule(t *thread) int {
 			u := tr.partner
 			e.noteOp(u, tr.pIdx, true)
 			u.pend = pending{kind: opResume, result: tr.pIdx, site: u.pend.site}
+			u.pendEpoch = e.epochs
 			gateSend(u.gate, cmd{kind: cmdPartner, idx: tr.pIdx})
 		}
 		e.noteOp(tr.t, tr.caseIdx, false)
@@ -681,6 +730,7 @@ func (e *Exec) advanceClock() bool {
 	if min > e.clock {
 		e.clock = min
 	}
+	e.epochs++
 	// fire every timer due now, in creation order
 	live := e.timers[:0]
 	var fire []*timer
@@ -734,6 +784,7 @@ func (e *Exec) spawn(name string, role int, f func()) *thread {
 	t := &thread{id: len(e.threads), name: name, role: role, gate: make(chan cmd, 1), state: stParked}
 	t.hash = mix(parentHash, hashStr(name))
 	t.pend = pending{kind: opStart, site: name}
+	t.pendEpoch = e.epochs
 	e.threads = append(e.threads, t)
 	e.wg.Add(1)
 	go threadMain(e, t, f)
@@ -797,6 +848,17 @@ func block(p pending) int {
 	e := cur
 	t := e.running
 	if t == nil {
+		if e.checking {
+			// the harness's Check function (driver goroutine, every thread parked) may use hooked
+			// objects as long as the operation does not need to wait
+			tmp := &thread{id: -1, pend: p}
+			var buf [4]transition
+			if trs := e.collect(buf[:0], tmp, nil); len(trs) == 0 {
+				engineFail("Check function would block in %s at %s%s", opName(p.kind), p.site, pcSite(p.pc))
+			} else {
+				return trs[0].caseIdx
+			}
+		}
 		engineFail("hook called with no running thread (foreign goroutine?) at %s", p.site)
 	}
 	if e.aborting {
@@ -807,6 +869,7 @@ func block(p pending) int {
 	}
 	t.pend = p
 	t.opSeq++
+	t.pendEpoch = e.epochs
 	idx := e.schedule(t)
 	if e.aborting {
 		panic(abortSentinel)
